@@ -24,7 +24,7 @@ ITER = 2
 MARK = re.compile(r"^(?:[FTCALD]\d+|R\d+=.*|END|ERR|PANIC=.*|== \d+)$")
 
 
-def _stmts(blk, ind, p, glob, loops=(), used=None):
+def _stmts(blk, ind, p, glob, loops=(), used=None, shift=0):
     """loops: ids of the enclosing loops of this function (innermost last); used: ids of loops that need a label"""
     used = set() if used is None else used
     o = []
@@ -37,26 +37,27 @@ def _stmts(blk, ind, p, glob, loops=(), used=None):
         if k == "try":
             o.append(t + "try {")
             o.append('%s\tfmt.Printf("T%d\\n")' % (t, i))
-            o += _stmts(s["a"], ind + 1, p, glob, loops, used)
+            o += _stmts(s["a"], ind + 1, p, glob, loops, used, shift)
             if s["hc"]:
                 # both spellings of the catch clause are in use: with and without the error variable
                 o.append(t + ("} catch (e%d) {" % i if i % 2 else "} catch {"))
                 if i % 2:
                     o.append("%s\t_ = e%d" % (t, i))
                 o.append('%s\tfmt.Printf("C%d\\n")' % (t, i))
-                o += _stmts(s["b"], ind + 1, p, glob, loops, used)
+                o += _stmts(s["b"], ind + 1, p, glob, loops, used, shift)
             o.append(t + "}")
             pr("A%d" % i)
         elif k == "loop":
-            body = _stmts(s["a"], ind + 1, p, glob, loops + (i,), used)
-            if i % 3 == 0:
+            body = _stmts(s["a"], ind + 1, p, glob, loops + (i,), used, shift)
+            form = (i + shift) % 3
+            if form == 0:
                 o.append("%sn%d := 0" % (t, i))
             if i in used:
                 o.append("%slab%d:" % (t, i))
             # the three loop forms of the language take turns (same meaning: ITER passes)
-            if i % 3 == 1:
+            if form == 1:
                 o.append("%sfor i%d := 0; i%d < %d; i%d++ {" % (t, i, i, ITER, i))
-            elif i % 3 == 2:
+            elif form == 2:
                 o.append("%sfor _, v%d := range []int{%s} {" % (t, i, ", ".join(str(x) for x in range(ITER))))
                 o.append("%s\t_ = v%d" % (t, i))
             else:
@@ -98,20 +99,22 @@ def _stmts(blk, ind, p, glob, loops=(), used=None):
     return o
 
 
-def render(cases, wrapped=True, lang="ego"):
+def render(cases, wrapped=True, lang="ego", shift=0):
     """One Ego source file running the given cases one after the other (lang="go": the same text as a Go program, for
     the cases that are legal Go -- no try/catch, no runtime error -- used to cross-check the specification itself).
     wrapped: main calls each case through a function that reports how the entry function ended:
     END (returned), ERR (a runtime error left it: caught by the wrapper's try), PANIC=<v> (a panic left it: stopped by
     the wrapper's deferred recover) -- so a case cannot end the process and many cases share one.
-    not wrapped (one case): main calls the entry function directly; an error / panic that leaves it ends the process."""
+    not wrapped (one case): main calls the entry function directly; an error / panic that leaves it ends the process.
+    shift: which of the three loop forms a loop statement is written in is (id + shift + position in the file) mod 3, so
+    that different seeds and files combine the forms differently (the forms mean the same: ITER passes)."""
     glob, body, main = [], [], []
     for n, c in enumerate(cases):
         p = "c%d" % n
         for fi, blk in enumerate(c["fns"]):
             body.append("func %sf%d() {" % (p, fi + 1))
             body.append('\tfmt.Printf("F%d\\n")' % (fi + 1))
-            body += _stmts(blk, 1, p, glob)
+            body += _stmts(blk, 1, p, glob, shift=shift + n)
             body.append("}\n")
         main.append('\tfmt.Printf("== %d\\n")' % n)
         if wrapped:
